@@ -136,7 +136,7 @@ func GetSchemaValue(updValue *sdcpb.TypedValue) (interface{}, error) {
 	case *sdcpb.TypedValue_AnyVal:
 		value = updValue.GetAnyVal()
 	case *sdcpb.TypedValue_IdentityrefVal:
-		value = updValue.GetIdentityrefVal().Value
+		value = updValue.GetIdentityrefVal().GetValue()
 	}
 	if value == nil && len(jsondata) != 0 {
 		err := json.Unmarshal(jsondata, &value)
@@ -454,6 +454,13 @@ func TypedValueToString(tv *sdcpb.TypedValue) string {
 		return string(tv.GetBytesVal()) // questionable...
 	case *sdcpb.TypedValue_DecimalVal:
 		d := tv.GetDecimalVal()
+		if d == nil {
+			return ""
+		}
+		// decimal64 has at most 18 fraction digits, do not try to pad towards an arbitrary precision
+		if d.Precision > 18 {
+			return strconv.FormatInt(d.Digits, 10) + "e-" + strconv.FormatUint(uint64(d.Precision), 10)
+		}
 		digitsStr := strconv.FormatInt(d.Digits, 10)
 		negative := false
 		if d.Digits < 0 {
